@@ -957,6 +957,16 @@ push_file(const CPPFile &file) {
   }
   assert(_last_c == 0);
 
+  // A file that includes itself normally stops when the nesting runs out of
+  // file descriptors, but if the #include is the very last thing in the file
+  // (no newline), the file has already been closed when we get here, and it
+  // would go on forever.
+  static const int max_include_count = 10000;
+  if (++_include_counts[file] > max_include_count) {
+    error("#include nested too deeply: " + file._filename.get_fullpath());
+    return false;
+  }
+
   InputFile *infile = new InputFile;
   if (infile->open(file)) {
     infile->_parent = _infile;
